@@ -116,7 +116,11 @@ func (g *Gen) call(st *State, in ssa.CallInstruction) Val {
 	// dynamic call through a function value
 	fv := g.val(st, cc.Value)
 	g.nilCheck(st, fv, pos, "call of nil func")
-	if cb := g.callbackContract(cc.Value); cb != nil {
+	cbc := g.callbackContract(cc.Value)
+	if cbc == nil {
+		cbc = g.resultCallback(cc.Value)
+	}
+	if cb := cbc; cb != nil {
 		sig := cc.Signature()
 		names := g.calleeNames(nil, sig, cb)
 		return g.applyContract(st, cb, cb.Key, names, argVals(), sig, resTy, pos, false)
@@ -153,6 +157,36 @@ func (g *Gen) callbackContract(v ssa.Value) *Contract {
 		return g.C.Callbacks[p.Name()]
 	}
 	return nil
+}
+
+// resultCallback: the contract a callee's contract attaches to a func-typed result
+// (//@ callback result<i> pure), e.g. the cancel function of context.WithCancel.
+func (g *Gen) resultCallback(v ssa.Value) *Contract {
+	ex, ok := v.(*ssa.Extract)
+	var call *ssa.Call
+	idx := 0
+	if ok {
+		call, _ = ex.Tuple.(*ssa.Call)
+		idx = ex.Index
+	} else {
+		call, _ = v.(*ssa.Call)
+	}
+	if call == nil {
+		return nil
+	}
+	f, ok := call.Call.Value.(*ssa.Function)
+	if !ok {
+		return nil
+	}
+	key := FuncKey(f)
+	if f.Origin() != nil {
+		key = FuncKey(f.Origin())
+	}
+	c := g.P.ContractFor(key)
+	if c == nil || c.Callbacks == nil {
+		return nil
+	}
+	return c.Callbacks[fmt.Sprintf("result%d", idx)]
 }
 
 func (g *Gen) staticCall(st *State, f *ssa.Function, args []Val, resTy types.Type, pos token.Pos) Val {
@@ -386,6 +420,18 @@ func (g *Gen) applyContractX(st *State, c *Contract, key string, names []string,
 					heapDep = true
 				}
 			}
+			if a.Ty != nil && (a.K == VStruct || a.K == VSlice) {
+				// references nested in struct fields / slice elements
+				et := a.Ty
+				if sl, ok := et.Underlying().(*types.Slice); ok {
+					et = sl.Elem()
+				}
+				for _, lf := range leavesOf(et) {
+					if isRefType(lf.Ty) {
+						heapDep = true
+					}
+				}
+			}
 			flat = append(flat, g.flattenArg(pre, a, a.Ty)...)
 		}
 		if c.Stable {
@@ -393,6 +439,14 @@ func (g *Gen) applyContractX(st *State, c *Contract, key string, names []string,
 		}
 		if privateArg && !c.Stable {
 			flat = append(flat, g.fresh("private", SInt))
+		}
+		if heapDep && !c.Stable && c.Reads != nil {
+			// declared read footprint: the result is a function of the arguments and of
+			// the current contents of exactly these components
+			for _, n := range g.readsComps(c, sc) {
+				flat = append(flat, g.heapGet(pre, n, g.universe[n]))
+			}
+			heapDep = false
 		}
 		if heapDep && !c.Stable {
 			// the result may depend on heap cells reachable from a reference: it is a
@@ -638,6 +692,7 @@ type allowedLoc struct {
 	hi  *Term
 	any bool // every location of the component
 	sinceEntry bool // everything allocated since function entry (modifies fresh)
+	sinceLoop  bool // everything allocated since the loop was entered (loop modifies new)
 }
 
 // compOfType: the component holds a field (or element field) of struct type t.
@@ -656,6 +711,13 @@ func compOfType(comp string, t types.Type) bool {
 func (g *Gen) allowSets(mods []Expr, sc *SCtx, what string) map[string][]allowedLoc {
 	allow := map[string][]allowedLoc{}
 	for _, m := range mods {
+		if id, ok := m.(*EIdent); ok && id.Name == "new" {
+			// objects allocated since the loop was entered
+			for _, n := range g.uniOrder {
+				allow[n] = append(allow[n], allowedLoc{sinceLoop: true})
+			}
+			continue
+		}
 		if id, ok := m.(*EIdent); ok && id.Name == "fresh" {
 			// objects allocated since function entry
 			for _, n := range g.uniOrder {
@@ -745,6 +807,12 @@ func (g *Gen) unchangedOutside(n string, cur, base *Term, clk *Term, allow []all
 		if a.sinceEntry {
 			// only locations that existed at function entry are constrained
 			clk = g.entry.Clk
+			continue
+		}
+		if a.sinceLoop {
+			if g.loopPreClk != nil {
+				clk = g.loopPreClk
+			}
 			continue
 		}
 		rest = append(rest, a)
@@ -1081,4 +1149,42 @@ func splitGoal(t *Term) []*Term {
 		return out
 	}
 	return []*Term{t}
+}
+
+// readsComps lists the heap components named by a reads clause (fields(T) entries).
+func (g *Gen) readsComps(c *Contract, sc *SCtx) []string {
+	var out []string
+	if c.Reads == nil {
+		return nil
+	}
+	for _, m := range c.Reads.Mods {
+		call, ok := m.(*ECall)
+		if !ok {
+			continue
+		}
+		id, ok := call.Fun.(*EIdent)
+		if !ok || id.Name != "fields" || len(call.Args) != 1 {
+			continue
+		}
+		tn := ExprString(call.Args[0])
+		if tn == "string" || tn == "int64" || tn == "int" {
+			for _, n := range g.uniOrder {
+				if n == "O:"+tn {
+					out = append(out, n)
+				}
+			}
+			continue
+		}
+		ty, err := sc.typeByName(tn)
+		if err != nil {
+			g.BindErrs = append(g.BindErrs, fmt.Sprintf("reads %s: %v", tn, err))
+			continue
+		}
+		for _, n := range g.uniOrder {
+			if compOfType(n, ty) {
+				out = append(out, n)
+			}
+		}
+	}
+	return out
 }
